@@ -45,7 +45,7 @@ Definition udd_times (n : nat) : list R := fam n (fun j => (sin (PI * INR j / (2
 (* Concatenated DD: CDD_g = [CDD_{g-1}, pi, CDD_{g-1}] on half the duration each, the pulse in the
    middle cancelling against ... nothing when g is odd, and against itself (two coincident pulses)
    when g is even -- exactly tests/testutil.py cdd_odd / cdd_even.  The sign function is the
-   product of the first g Rademacher functions ([cdd_sign_rademacher] in Proofs/DD.v).         *)
+   product of the first g Rademacher functions ([cdd_rademacher] in Proofs/DD.v).              *)
 Fixpoint cdd_times (g : nat) : list R :=
   match g with
   | O => []
@@ -55,9 +55,10 @@ Fixpoint cdd_times (g : nat) : list R :=
       if Nat.even g then h ++ h2 else h ++ [1/2] ++ h2
   end.
 
-(* sign function as a list of segment signs on the uniform grid of 2^g segments:
-   product of the Rademacher functions r_k = sign sin(2^k pi t/tau), k = 1..g *)
-Definition rademacher (g k m : nat) : R := (-1) ^ (m / 2 ^ (g - k)).
-Fixpoint rad_prod (g k m : nat) : R :=
-  match k with O => 1 | S k' => rad_prod g k' m * rademacher g k m end.
-Definition cdd_sign (g m : nat) : R := rad_prod g g m.
+(* The same sign function on the uniform grid of 2^g segments, as the product of the first g
+   Rademacher functions r_k(t) = sign sin(2^k pi t/tau): on the m-th segment r_k = (-1)^(m / 2^(g-k)).
+   [cdd_rademacher] (Proofs/DD.v) proves that both descriptions give the same y(z) for every g. *)
+Definition rad (g k m : nat) : R := (-1) ^ (m / 2 ^ (g - k)).
+Definition rad_sign (g m : nat) : R := fold_right (fun k acc => rad g k m * acc) 1 (seq 1 g).
+Definition rad_y (g : nat) (z : R) : Cx :=
+  csumn' (2 ^ g) (fun m => cscal RO (rad_sign g m) (csub' (ez z (INR (S m) / 2 ^ g)) (ez z (INR m / 2 ^ g)))).
